@@ -59,11 +59,11 @@ package policy
 //@   ensures [C12.cond.result] result_0 == ufb("reflect.DeepEqual", r, result)
 //@   modifies nothing
 //@ func (*BaseAbortablePolicy).AbortOnErrors$1
-//@   ensures [C12.abort.errors] result_0 == ufb("errors.Is", actualErr, t)
+//@   ensures [C12.abort.errors+C02.abort.condition_bound] result_0 == ufb("errors.Is", actualErr, t)
 //@   modifies nothing
 //@ func (*BaseAbortablePolicy).AbortOnErrorTypes$1
 //@   requires validErrTarget(t)
-//@   ensures [C12.abort.errortypes] result_0 == errTypesMatch(actualErr, t)
+//@   ensures [C12.abort.errortypes+C02.abort.condition_bound] result_0 == errTypesMatch(actualErr, t)
 //@   modifies methodcalls
 
 // Registration: one condition per argument, in order, each bound to its own target; earlier conditions are kept.
@@ -118,7 +118,7 @@ package policy
 //@   loop 0 invariant forall j int :: 0 <= j && j < n0 ==> c.abortConditions[j] == old(c.abortConditions[j])
 //@   loop 0 invariant forall j int :: 0 <= j && j <= rangeindex ==> clofn(c.abortConditions[n0+j]) == fnid("(*BaseAbortablePolicy).AbortOnErrors$1") && allocated(clobind(c.abortConditions[n0+j], 0)) && cellof(clobind(c.abortConditions[n0+j], 0), error) == errs[j]
 //@   loop 0 decreases len(errs) - rangeindex
-//@   ensures [C12.register.abort.errors] len(c.abortConditions) == n0 + len(errs) && (forall j int :: 0 <= j && j < len(errs) ==> clofn(c.abortConditions[n0+j]) == fnid("(*BaseAbortablePolicy).AbortOnErrors$1") && cellof(clobind(c.abortConditions[n0+j], 0), error) == errs[j])
+//@   ensures [C12.register.abort.errors+C02.abort.registered] len(c.abortConditions) == n0 + len(errs) && (forall j int :: 0 <= j && j < len(errs) ==> clofn(c.abortConditions[n0+j]) == fnid("(*BaseAbortablePolicy).AbortOnErrors$1") && cellof(clobind(c.abortConditions[n0+j], 0), error) == errs[j])
 //@   ensures [C12.register.abort.errors.kept] forall j int :: 0 <= j && j < n0 ==> c.abortConditions[j] == old(c.abortConditions[j])
 //@   modifies c.abortConditions
 
@@ -130,7 +130,7 @@ package policy
 //@   loop 0 invariant forall j int :: 0 <= j && j < n0 ==> c.abortConditions[j] == old(c.abortConditions[j])
 //@   loop 0 invariant forall j int :: 0 <= j && j <= rangeindex ==> clofn(c.abortConditions[n0+j]) == fnid("(*BaseAbortablePolicy).AbortOnErrorTypes$1") && allocated(clobind(c.abortConditions[n0+j], 0)) && cellof(clobind(c.abortConditions[n0+j], 0), any) == errs[j]
 //@   loop 0 decreases len(errs) - rangeindex
-//@   ensures [C12.register.abort.errortypes] len(c.abortConditions) == n0 + len(errs) && (forall j int :: 0 <= j && j < len(errs) ==> clofn(c.abortConditions[n0+j]) == fnid("(*BaseAbortablePolicy).AbortOnErrorTypes$1") && cellof(clobind(c.abortConditions[n0+j], 0), any) == errs[j])
+//@   ensures [C12.register.abort.errortypes+C02.abort.registered] len(c.abortConditions) == n0 + len(errs) && (forall j int :: 0 <= j && j < len(errs) ==> clofn(c.abortConditions[n0+j]) == fnid("(*BaseAbortablePolicy).AbortOnErrorTypes$1") && cellof(clobind(c.abortConditions[n0+j], 0), any) == errs[j])
 //@   modifies c.abortConditions
 
 //@ func (*BaseAbortablePolicy).AbortOnResult$1
